@@ -1,7 +1,7 @@
 (* C12 — proofs about expand_data_card's model (C12/Model.v [expand]) against
    the meaning of the shorthand (C12/Spec.v [meaning]). *)
 From Coq Require Import List NArith ZArith Bool String Ascii Lia Reals Lra.
-From T4V Require Import Base.Str Base.Scalar C12.Text C12.Model C12.Spec.
+From T4V Require Import Base.Str Base.Scalar C12.Text C12.Model C12.Spec C12.ProofsText.
 Import ListNotations.
 Open Scope string_scope.
 Open Scope list_scope.
@@ -46,7 +46,17 @@ Section Expand.
       reads (t :: ts) (EMul x :: es)
   | reads_jump t body n ts es :
       lower t = (body ++ "j")%string -> count_of body n -> reads ts es ->
-      reads (t :: ts) (EJump n :: es).
+      reads (t :: ts) (EJump n :: es)
+  (* nLOG / nILOG: the count is a Python int (a bare LOG is a TypeError in the
+     code), the bound is read by float() *)
+  | reads_log t body n u b ts es :
+      lower t = (body ++ "log")%string -> last_char body <> Some "i"%char ->
+      int_tok body = Some (Z.of_nat n) -> fl P (lower u) = Some b -> reads ts es ->
+      reads (t :: u :: ts) (ELog n b :: es)
+  | reads_ilog t body n u b ts es :
+      lower t = (body ++ "ilog")%string ->
+      int_tok body = Some (Z.of_nat n) -> fl P (lower u) = Some b -> reads ts es ->
+      reads (t :: u :: ts) (ELog n b :: es).
 
   Lemma count_tok_of body n : count_of body n -> count_tok body = Ok (Z.of_nat n).
   Proof.
@@ -125,6 +135,108 @@ Section Expand.
     unfold interpolates, interp. rewrite !map_map. reflexivity.
   Qed.
 
+  (* ---- nLOG / nILOG ---- *)
+  Lemma app3 (body : string) a b c :
+    (body ++ String a (String b (String c "")))%string
+    = (((body ++ String a "") ++ String b "") ++ String c "")%string.
+  Proof. induction body as [|x r IH]; [reflexivity|]. cbn. rewrite IH. reflexivity. Qed.
+
+  Lemma last3 (body : string) a b c :
+    last_char (body ++ String a (String b (String c "")))%string = Some c
+    /\ but_last_n 3 (body ++ String a (String b (String c "")))%string = body.
+  Proof.
+    rewrite app3. split; [apply last_char_app|].
+    cbn [but_last_n]. rewrite !but_last_app. reflexivity.
+  Qed.
+
+  Lemma prefix_app (p x : string) : String.prefix p (p ++ x)%string = true.
+  Proof.
+    induction p as [|c r IH]; [destruct x; reflexivity|].
+    cbn [append String.prefix]. destruct (ascii_dec c c); [exact IH|congruence].
+  Qed.
+
+  Lemma ends_with_log (body : string) : ends_with "log" (body ++ "log")%string = true.
+  Proof. unfold ends_with. rewrite srev_app. apply prefix_app. Qed.
+
+  Lemma not_i_match (o : option ascii) :
+    o <> Some "i"%char -> match o with Some "i"%char => true | _ => false end = false.
+  Proof.
+    intros H. destruct o as [c|]; [|reflexivity].
+    destruct c as [b0 b1 b2 b3 b4 b5 b6 b7].
+    destruct b0, b1, b2, b3, b4, b5, b6, b7; try reflexivity. exfalso. apply H. reflexivity.
+  Qed.
+
+  Lemma leb_nat_Z n : (1 <=? Z.of_nat n)%Z = (1 <=? n)%nat.
+  Proof.
+    destruct (1 <=? n)%nat eqn:E.
+    - apply Nat.leb_le in E. apply Z.leb_le. lia.
+    - apply Nat.leb_gt in E. apply Z.leb_gt. lia.
+  Qed.
+
+  Lemma logspace_ok a b n upper_tok tok body3 :
+    fl P upper_tok = Some b -> but_last_n 3 tok = body3 ->
+    (match last_char body3 with Some "i"%char => true | _ => false end = false /\ int_tok body3 = Some (Z.of_nat n)
+     \/ exists body, body3 = (body ++ "i")%string /\ int_tok body = Some (Z.of_nat n)) ->
+    log_ok Sc a b n = true ->
+    logspace Sc P (Some a) upper_tok tok =
+    Ok (map Some (log_interpolates Sc (pw P) a b n) ++ [Some b]).
+  Proof.
+    intros Hfl Hb3 Hn Hok. unfold logspace. rewrite Hfl, Hb3. cbn [of_opt bind].
+    assert ((if match last_char body3 with Some "i"%char => true | _ => false end
+             then if is_empty (but_last body3) then Ok None
+                  else do z <- of_opt EValue (int_tok (but_last body3)); Ok (Some z)
+             else do z <- of_opt EValue (int_tok body3); Ok (Some z)) = Ok (Some (Z.of_nat n))) as ->.
+    { destruct Hn as [[Hi Hz]|(body & -> & Hz)].
+      - rewrite Hi, Hz. reflexivity.
+      - rewrite last_char_app, but_last_app. replace (match Some "i"%char with Some "i"%char => true | _ => false end) with true by reflexivity.
+        destruct body as [|c r]; [rewrite int_tok_empty in Hz; discriminate|]. cbn [is_empty]. rewrite Hz. reflexivity. }
+    cbn [bind]. unfold log_ok in Hok. apply andb_true_iff in Hok. destruct Hok as [H0 H1].
+    apply negb_true_iff in H0, H1. rewrite H0.
+    replace (Z.of_nat n + 1 =? 0)%Z with false by (symmetry; apply Z.eqb_neq; lia).
+    rewrite leb_nat_Z, H1. rewrite zrange_of_nat. unfold log_interpolates, log_interp.
+    rewrite !map_map. reflexivity.
+  Qed.
+
+  Lemma step_log body n u b rest a acc :
+    last_char body <> Some "i"%char -> int_tok body = Some (Z.of_nat n) ->
+    fl P (lower u) = Some b -> log_ok Sc a b n = true ->
+    expand_step Sc P (body ++ "log") (u :: rest) (Some a :: acc) =
+    Ok (Some b :: rev (map Some (log_interpolates Sc (pw P) a b n)) ++ Some a :: acc, 1%nat).
+  Proof.
+    intros Hi Hz Hfl Hok. unfold expand_step.
+    destruct (last3 body "l" "o" "g") as [Hl Hb]. change (String "l" (String "o" (String "g" ""))) with "log" in *.
+    rewrite Hl. cbn [char_is].
+    replace (Ascii.eqb "r" "g") with false by reflexivity.
+    replace (Ascii.eqb "i" "g") with false by reflexivity.
+    replace (Ascii.eqb "m" "g") with false by reflexivity.
+    replace (Ascii.eqb "j" "g") with false by reflexivity.
+    rewrite ends_with_log.
+    rewrite (logspace_ok a b n (lower u) _ body Hfl Hb); [|left; split; [apply not_i_match; exact Hi|exact Hz]|exact Hok].
+    cbn [bind]. rewrite rev_app_distr. reflexivity.
+  Qed.
+
+  Lemma step_ilog body n u b rest a acc :
+    int_tok body = Some (Z.of_nat n) ->
+    fl P (lower u) = Some b -> log_ok Sc a b n = true ->
+    expand_step Sc P (body ++ "ilog") (u :: rest) (Some a :: acc) =
+    Ok (Some b :: rev (map Some (log_interpolates Sc (pw P) a b n)) ++ Some a :: acc, 1%nat).
+  Proof.
+    intros Hz Hfl Hok. unfold expand_step.
+    assert ((body ++ "ilog")%string = ((body ++ "i") ++ "log")%string) as E
+      by (clear; induction body as [|x r IH]; [reflexivity|]; cbn; rewrite IH; reflexivity).
+    rewrite E. destruct (last3 (body ++ "i")%string "l" "o" "g") as [Hl Hb].
+    change (String "l" (String "o" (String "g" ""))) with "log" in *.
+    rewrite Hl. cbn [char_is].
+    replace (Ascii.eqb "r" "g") with false by reflexivity.
+    replace (Ascii.eqb "i" "g") with false by reflexivity.
+    replace (Ascii.eqb "m" "g") with false by reflexivity.
+    replace (Ascii.eqb "j" "g") with false by reflexivity.
+    rewrite ends_with_log.
+    rewrite (logspace_ok a b n (lower u) _ (body ++ "i")%string Hfl Hb);
+      [|right; exists body; split; [reflexivity|exact Hz]|exact Hok].
+    cbn [bind]. rewrite rev_app_distr. reflexivity.
+  Qed.
+
   Lemma prev_of_repeat (v : option T) n acc : prev_of (repeat v n ++ v :: acc) = Some v.
   Proof. destruct n; reflexivity. Qed.
 
@@ -136,23 +248,24 @@ Section Expand.
   Lemma expand_loop_reads toks es :
     reads toks es ->
     forall acc consumed out,
-      meaning Sc es (prev_of acc) = Some out ->
+      meaning Sc (pw P) es (prev_of acc) = Some out ->
       expand_loop Sc P toks O None acc consumed =
       Ok (rev out ++ acc, (consumed + List.length toks)%nat).
   Proof.
     induction 1 as [|t x ts es Hfl Hpl Hr IH|t body n ts es Hl Hc Hr IH
                     |t body n u b ts es Hl Hc Hfl Hr IH|t body x ts es Hl Hne Hfl Hr IH
-                    |t body n ts es Hl Hc Hr IH];
+                    |t body n ts es Hl Hc Hr IH
+                    |t body n u b ts es Hl Hi Hz Hfl Hr IH|t body n u b ts es Hl Hz Hfl Hr IH];
       intros acc consumed out Hm.
     - cbn in Hm. injection Hm as <-. cbn. f_equal. f_equal. lia.
     - cbn [meaning] in Hm.
-      destruct (meaning Sc es (Some (Some x))) as [o|] eqn:Em; [|discriminate].
+      destruct (meaning Sc (pw P) es (Some (Some x))) as [o|] eqn:Em; [|discriminate].
       injection Hm as <-.
       cbn [expand_loop reached]. rewrite (step_val _ _ _ _ Hfl Hpl). cbn [bind].
       rewrite (IH (Some x :: acc) _ o Em).
       cbn [rev List.length]. rewrite <- app_assoc. cbn [app]. f_equal. f_equal. lia.
     - cbn [meaning] in Hm. destruct acc as [|v acc]; [discriminate|]. cbn [prev_of] in Hm.
-      destruct (meaning Sc es (Some v)) as [o|] eqn:Em; [|discriminate].
+      destruct (meaning Sc (pw P) es (Some v)) as [o|] eqn:Em; [|discriminate].
       injection Hm as <-.
       cbn [expand_loop reached]. rewrite Hl, (step_rep _ _ _ _ _ Hc). cbn [bind].
       rewrite (IH (repeat v n ++ v :: acc) _ o); [|rewrite prev_of_repeat; exact Em].
@@ -162,20 +275,20 @@ Section Expand.
             clear IHk; induction k as [|j IHj]; [reflexivity|cbn [repeat app]; f_equal; exact IHj]]).
       cbn [List.length]. f_equal. f_equal. lia.
     - cbn [meaning] in Hm. destruct acc as [|[a|] acc]; try discriminate. cbn [prev_of] in Hm.
-      destruct (meaning Sc es (Some (Some b))) as [o|] eqn:Em; [|discriminate].
+      destruct (meaning Sc (pw P) es (Some (Some b))) as [o|] eqn:Em; [|discriminate].
       injection Hm as <-.
       cbn [expand_loop reached]. rewrite Hl, (step_int _ _ _ _ _ _ _ Hc Hfl). cbn [bind].
       rewrite (IH (Some b :: rev (map Some (interpolates Sc a b n)) ++ Some a :: acc) _ o Em).
       rewrite !rev_app_distr. cbn [rev app List.length]. rewrite <- !app_assoc. cbn [app].
       f_equal. f_equal. lia.
     - cbn [meaning] in Hm. destruct acc as [|[a|] acc]; try discriminate. cbn [prev_of] in Hm.
-      destruct (meaning Sc es (Some (Some (smul Sc a x)))) as [o|] eqn:Em; [|discriminate].
+      destruct (meaning Sc (pw P) es (Some (Some (smul Sc a x)))) as [o|] eqn:Em; [|discriminate].
       injection Hm as <-.
       cbn [expand_loop reached]. rewrite Hl, (step_mul _ _ _ _ _ Hne Hfl). cbn [bind].
       rewrite (IH (Some (smul Sc a x) :: Some a :: acc) _ o Em).
       cbn [rev List.length]. rewrite <- app_assoc. cbn [app]. f_equal. f_equal. lia.
     - cbn [meaning] in Hm.
-      destruct (meaning Sc es (match n with O => prev_of acc | S _ => Some None end)) as [o|] eqn:Em;
+      destruct (meaning Sc (pw P) es (match n with O => prev_of acc | S _ => Some None end)) as [o|] eqn:Em;
         [|discriminate].
       injection Hm as <-.
       cbn [expand_loop reached]. rewrite Hl, (step_jump _ _ _ _ Hc). cbn [bind].
@@ -185,12 +298,28 @@ Section Expand.
         by (clear; induction n as [|k IHk]; [reflexivity|cbn [repeat rev]; rewrite <- IHk;
             clear IHk; induction k as [|j IHj]; [reflexivity|cbn [repeat app]; f_equal; exact IHj]]).
       cbn [List.length]. f_equal. f_equal. lia.
+    - cbn [meaning] in Hm. destruct acc as [|[a|] acc]; try discriminate. cbn [prev_of] in Hm.
+      destruct (log_ok Sc a b n) eqn:Eok; [|discriminate].
+      destruct (meaning Sc (pw P) es (Some (Some b))) as [o|] eqn:Em; [|discriminate].
+      injection Hm as <-.
+      cbn [expand_loop reached]. rewrite Hl, (step_log _ _ _ _ _ _ _ Hi Hz Hfl Eok). cbn [bind].
+      rewrite (IH (Some b :: rev (map Some (log_interpolates Sc (pw P) a b n)) ++ Some a :: acc) _ o Em).
+      rewrite !rev_app_distr. cbn [rev app List.length]. rewrite <- !app_assoc. cbn [app].
+      f_equal. f_equal. lia.
+    - cbn [meaning] in Hm. destruct acc as [|[a|] acc]; try discriminate. cbn [prev_of] in Hm.
+      destruct (log_ok Sc a b n) eqn:Eok; [|discriminate].
+      destruct (meaning Sc (pw P) es (Some (Some b))) as [o|] eqn:Em; [|discriminate].
+      injection Hm as <-.
+      cbn [expand_loop reached]. rewrite Hl, (step_ilog _ _ _ _ _ _ _ Hz Hfl Eok). cbn [bind].
+      rewrite (IH (Some b :: rev (map Some (log_interpolates Sc (pw P) a b n)) ++ Some a :: acc) _ o Em).
+      rewrite !rev_app_distr. cbn [rev app List.length]. rewrite <- !app_assoc. cbn [app].
+      f_equal. f_equal. lia.
   Qed.
 
   (* expand_data_card(tokens) returns exactly the numbers the entries stand
      for, and consumes every token *)
   Theorem expand_shorthand toks es out :
-    reads toks es -> meaning Sc es None = Some out ->
+    reads toks es -> meaning Sc (pw P) es None = Some out ->
     expand Sc P toks None = Ok (out, List.length toks).
   Proof.
     intros Hr Hm. unfold expand.
@@ -219,4 +348,30 @@ Lemma interp_step a b n k :
   (interp RS a b n (S k) - interp RS a b n k = (b - a) / (INR n + 1))%R.
 Proof.
   rewrite !interp_real, S_INR. field. pose proof (pos_INR n). lra.
+Qed.
+
+(* ---------- the values of nLOG have a constant ratio (reals, x**y = Rpower) ---------- *)
+Lemma log_interp_real a b n k :
+  log_interp RS Rpower a b n k = (a * Rpower (b / a) (INR k / (INR n + 1)))%R.
+Proof.
+  unfold log_interp. cbn [smul sdiv s1 sofZ RS]. rewrite Rpower_mult. f_equal. f_equal.
+  rewrite plus_IZR, <- !INR_IZR_INZ. field. pose proof (pos_INR n). lra.
+Qed.
+
+Lemma log_interp_ratio a b n k :
+  log_interp RS Rpower a b n (S k) =
+  (log_interp RS Rpower a b n k * Rpower (b / a) (1 / (INR n + 1)))%R.
+Proof.
+  rewrite !log_interp_real, Rmult_assoc, <- Rpower_plus. f_equal. f_equal.
+  rewrite S_INR. field. pose proof (pos_INR n). lra.
+Qed.
+
+Lemma log_interp_ends a b n : (a <> 0 -> 0 < b / a ->
+  log_interp RS Rpower a b n 0 = a /\ log_interp RS Rpower a b n (S n) = b)%R.
+Proof.
+  intros Ha Hr. rewrite !log_interp_real. split.
+  - replace (INR 0 / (INR n + 1))%R with 0%R by (cbn; field; pose proof (pos_INR n); lra).
+    rewrite Rpower_O by exact Hr. ring.
+  - replace (INR (S n) / (INR n + 1))%R with 1%R by (rewrite S_INR; field; pose proof (pos_INR n); lra).
+    rewrite Rpower_1 by exact Hr. field. exact Ha.
 Qed.
